@@ -215,6 +215,12 @@ func cmdCheck(repo, root string, args []string) int {
 	for _, k := range sortedKeys(w.Specs) {
 		fs := w.Specs[k]
 		if !specMentions(fs, prop) {
+			// a table-derived contract gets its clauses (and their property tags) only once it is bound to its function; if
+			// the function is gone or its receiver form changed, nothing was synthesised and the contract would silently
+			// drop out of every check: report it under the properties its directive stands for
+			if fs.Layout != "" && w.LookupFunc(fs) == nil && layoutDirectiveServes(fs.Layout, prop) {
+				genErrs = append(genErrs, shortKey(k)+": contract does not bind: no function "+fs.Key+" with this receiver form in the current tree (layout "+fs.Layout+")")
+			}
 			continue
 		}
 		w.OnlyProp = prop
@@ -748,4 +754,21 @@ func sortedKeys2[V any](m map[string]V) []string {
 	}
 	sort.Strings(ks)
 	return ks
+}
+
+// layoutDirectiveServes: the properties the clauses synthesised for a layout directive are tagged with.
+func layoutDirectiveServes(dir, prop string) bool {
+	d := strings.Fields(dir)
+	if len(d) == 0 {
+		return false
+	}
+	switch d[0] {
+	case "enc":
+		return prop == "C01" || prop == "C02" || prop == "C11" || prop == "C10" || prop == "C12" || prop == "C03"
+	case "dec":
+		return prop == "C01" || prop == "C02" || prop == "C11" || prop == "C03" || prop == "C12" || prop == "C10"
+	case "cmd", "resp", "setseq", "getseq", "dispatch":
+		return prop == "C10" || (d[0] == "dispatch" && prop == "C03")
+	}
+	return false
 }
